@@ -25,6 +25,10 @@ AUTH_TRUSTED = [
     "translated from the C++ on every run: BasicAuthMiddleware::verify and BasicAuthMiddleware::process of basicauthmiddleware.cpp in the vocabulary of Qhttp/Model/AxPrim.lean (a QString is its UTF-8 encoding, QString::fromUtf8(b).toUtf8() is an arbitrary function `round`, QMap::contains/value are the model's last-registration lookup, Parser::split is what QhttpBridge.Parser.split_eq proves of the translated parser, QString::arg replaces every %1; trusted); bridge theorems QhttpBridge.Auth prove that process admits exactly when BasicAuth.verdict does and otherwise sets the WWW-Authenticate challenge with the realm and writes 401, for every table whose entries `round` leaves alone (they were registered as QStrings)",
 ]
 
+LAUTH_TRUSTED = [
+    "translated from the C++ on every run: LocalAuthMiddleware::process of localauthmiddleware.cpp in the vocabulary of Qhttp/Model/AxPrim.lean (trusted); bridge theorems QhttpBridge.LocalAuth prove that it admits exactly when the value of the configured header is the token byte for byte (name compared up to case) and answers 403 otherwise",
+]
+
 SLOT_TRUSTED = [
     "translated from the C++ on every run: QObjectHandler::process of qobjecthandler.cpp in the vocabulary of Qhttp/Model/SxPrim.lean (QMap::contains/value are the model's last-registration lookup, socket->bytesAvailable()/contentLength() what QhttpBridge.Sock proves of the translated socket.cpp, d->invokeSlot and the connect() of the deferred call recorded as actions; trusted); bridge theorems QhttpBridge.Slot prove that process takes the decision of SlotHandler.onHp: 404 / invoke now / invoke at end-of-body, for the registration stored last under exactly the routed name; invokeSlot itself (Qt's meta-object call) is modelled, not translated",
 ]
@@ -43,7 +47,7 @@ PROPS = {
     "C04": {"count": {"quick": 2500, "thorough": 40000}, "trusted": SOCK_TRUSTED + PARSER_TRUSTED,
             "rule": "rejected heads x segmentations x number of segments buffered before construction x trailing data x late events"},
     "C17": {"count": {"quick": 500, "thorough": 8000},
-            "trusted": ["observed, not modelled: file modes and umask (stat(2)), the home directory, QJsonDocument (the file is represented by its top-level keys), QUuid (token distinctness across instances is QUuid's property; the harness checks a previous instance's token is refused)",
+            "trusted": LAUTH_TRUSTED + ["observed, not modelled: file modes and umask (stat(2)), the home directory, QJsonDocument (the file is represented by its top-level keys), QUuid (token distinctness across instances is QUuid's property; the harness checks a previous instance's token is refused)",
                         "the token comparison is made on bytes in the repaired code; header lookup is the case-insensitive header map (C01)"],
             "rule": "life cycles: optional umask {000,022,027,077,002}, optional pre-existing permissive file, create, then 0-7 of setData / setHeaderName / requests (exact token, upper-cased, last char dropped, braces stripped, NUL suffix, BOM prefix, previous instance's token, guesses, no header; under the configured, a case variant or another header name) / destroy+create / umask changes; stat + JSON parse after every call with HOME redirected to a scratch directory"},
     "C18": {"count": {"quick": 4000, "thorough": 100000}, "trusted": SOCK_TRUSTED,
@@ -167,6 +171,7 @@ PARSER_ALL = ["QhttpBridge.Parser"]
 FS_ALL = ["QhttpBridge.Fs.AbsolutePath", "QhttpBridge.Fs.Process"]
 
 BRIDGE_NEEDS = {
+    "QhttpBridge.LocalAuth": ["LocalAuthMiddleware::process"],
     "QhttpBridge.Slot": ["QObjectHandler::process"],
     "QhttpBridge.Auth": ["BasicAuthMiddleware::verify", "BasicAuthMiddleware::process"],
     "QhttpBridge.Fs.AbsolutePath": ["FilesystemHandlerPrivate::absolutePath"],
@@ -219,5 +224,6 @@ BRIDGES = {
     "C07": FS_ALL,
     "C09": ["QhttpBridge.Auth"],
     "C15": ["QhttpBridge.Slot"],
+    "C17": ["QhttpBridge.LocalAuth"],
 }
 ALL_BRIDGE_MODULES = sorted({m for v in BRIDGES.values() for m in v})
